@@ -772,6 +772,41 @@ func indexes(c *harness.Ctx) {
 		}
 		c.Count("failing_upstream_probes", 1)
 	}
+	// an upload to an index server whose store cannot take it: the index store is the directory /dev, the index name
+	// "full" (every write to /dev/full fails with ENOSPC, as on a disk without room). The client must see a failure,
+	// for indexes smaller than any buffer on the way too.
+	if shape == "handler" || shape == "cli" {
+		small := idx
+		if rng.Intn(2) == 0 && len(idx.Chunks) > 3 {
+			small.Chunks = idx.Chunks[:1+rng.Intn(3)]
+		}
+		var fbase string
+		if shape == "handler" {
+			devStore, _ := desync.NewLocalIndexStore("/dev")
+			fs := httptest.NewServer(desync.NewHTTPIndexHandler(devStore, true, ""))
+			defer fs.Close()
+			fbase = fs.URL
+		} else {
+			addr, cmd, err := dsu.StartServerCmd(func(addr string) *exec.Cmd {
+				cmd := exec.Command(cli, "index-server", "-w", "-s", "/dev", "-l", addr)
+				cmd.Env = append(os.Environ(), "HOME="+dir)
+				return cmd
+			})
+			if err == nil {
+				defer dsu.StopServerCmd(cmd)
+				fbase = "http://" + addr
+			}
+		}
+		if fbase != "" {
+			fu, _ := url.Parse(fbase + "/")
+			fcl, _ := desync.NewRemoteHTTPIndexStore(fu, desync.StoreOptions{ErrorRetry: 1, ErrorRetryBaseInterval: time.Millisecond})
+			if serr := fcl.StoreIndex("full", small); serr == nil {
+				c.Violation("failure-reported-as-success:index-upload", "index server (%s) over a store without room (/dev/full): the upload of an index of %d chunks was reported as stored", shape, len(small.Chunks))
+				return
+			}
+			c.Count("index_uploads_to_a_full_store", 1)
+		}
+	}
 	c.Count("index_roundtrips", 1)
 	c.NonTrivial("index|%s|%d", shape, min(len(idx.Chunks)/40, 3))
 	c.Sample(map[string]interface{}{"leg": "indexes", "shape": shape, "chunks": len(idx.Chunks)})
@@ -845,6 +880,38 @@ func sshSession(c *harness.Ctx) {
 			c.Violation("ssh-missing-misreported", "request %d: absent chunk reported as %v", k, err)
 			return
 		}
+	}
+	// last request of the session: a chunk whose file in the served store cannot be unpacked (cut short by a crash or a
+	// partial copy, garbage, no bytes at all). `desync pull` does not verify what it reads, the damage shows when the
+	// server unpacks the chunk to send it: that is a failure of the store, "missing" would make a router or a cache
+	// move on as if the store were fine.
+	if !uncompressed && rng.Intn(2) == 0 {
+		victim := ids[3]
+		name := filepath.Join(store, victim.String()[:4], victim.String()+".cacnk")
+		raw, _ := os.ReadFile(name)
+		how := []string{"cut", "garbage", "empty"}[rng.Intn(3)]
+		switch how {
+		case "cut":
+			raw = raw[:1+rng.Intn(len(raw)-1)]
+			if len(raw) > 8 {
+				raw = raw[:8]
+			}
+		case "garbage":
+			raw = []byte("this is not a zstd frame")
+		case "empty":
+			raw = nil
+		}
+		dsu.WriteFile(name, raw)
+		_, gerr := s.GetChunk(victim)
+		if gerr == nil {
+			c.Violation("failure-reported-as-success:ssh", "a chunk file that cannot be unpacked (%s) was delivered over the session without an error", how)
+			return
+		}
+		if _, missing := gerr.(desync.ChunkMissing); missing {
+			c.Violation("failure-reported-as-missing:ssh", "the served store holds a chunk file that cannot be unpacked (%s): the client was told the chunk is missing", how)
+			return
+		}
+		c.Count("ssh_sessions_ending_with_a_damaged_chunk", 1)
 	}
 	c.Count("ssh_sessions", 1)
 	c.NonTrivial("ssh-session|u%v", uncompressed)
